@@ -170,3 +170,170 @@ Example C16_demo_grammar :
   engine_line (lit "option name Hash type spin default 1 min 1 max x") = false /\
   engine_line (lit "Inkayaku by Marvin Kuhnke") = false.
 Proof. vm_compute. repeat split. Qed.
+
+(* ================================================================================================================
+   SESSION LEVEL: the messages ONE `go` emits, on the model of the search driver (Model/Search.v).
+   "Within one search the reported depth, node count and time never decrease, every reported principal variation
+    is a legal line from the searched position, and the announced bestmove and ponder move are the first and second
+    move of the last reported principal variation."
+   Proofs: Proofs/SessionProofs.v, Proofs/HashFullProofs.v.
+     go_msgs T orc g st          the messages emitted by `go` (s_out after minus s_out before), OLDEST FIRST
+     field_values f msgs         the values of field f over the `info` messages that carry it, in order
+     last_pv msgs                the principal variation of the last `info` message that carries one
+   From here on `OInfo`, `info`, `i_depth`, ... are those of Model/UciTx.v; the console side is written qualified.
+   ================================================================================================================ *)
+Require Import Sorted.
+Require Import Ink.Model.Tables Ink.Model.Board Ink.Model.UciTx Ink.Model.Search.
+Require Import Ink.Proofs.SearchProofs Ink.Proofs.HashFullProofs Ink.Proofs.ChessInstance Ink.Proofs.SessionProofs.
+
+(* ---- nodes: for EVERY oracle (abort point, inbox, clock) ---- *)
+Theorem C16_nodes_monotone : forall T orc g st,
+  StronglySorted N.le (field_values i_nodes (go_msgs T orc g st)).
+Proof. exact nodes_monotone_thm. Qed.
+Print Assumptions C16_nodes_monotone.
+
+(* ---- depth (the periodic infos carry none; an aborted iteration reports the previous depth): every oracle ---- *)
+Theorem C16_depth_monotone : forall T orc g st,
+  StronglySorted N.le (field_values i_depth (go_msgs T orc g st)).
+Proof. exact depth_monotone_thm. Qed.
+Print Assumptions C16_depth_monotone.
+
+(* ---- time.  The `info` record of the model stores the clock reading (nanoseconds; only the renderer of
+   Model/UciTx.v prints it as `T`), so the theorem is about the stored readings.
+   [clock_mono orc]: the k-th reading `elapsed orc k` is non-decreasing in k. ---- *)
+Theorem C16_time_monotone : forall T orc g st,
+  (forall i j, (i <= j)%nat -> elapsed orc i <= elapsed orc j) ->
+  StronglySorted N.le (field_values i_time (go_msgs T orc g st)).
+Proof. exact time_monotone_thm. Qed.
+Print Assumptions C16_time_monotone.
+
+(* without any hypothesis on the clock: the reported times are readings of the clock with strictly increasing indices *)
+Theorem C16_time_readings : forall T orc g st,
+  exists ks, field_values i_time (go_msgs T orc g st) = map (elapsed orc) ks /\ StronglySorted lt ks.
+Proof. exact time_readings_thm. Qed.
+Print Assumptions C16_time_readings.
+
+(* ---- the output is `info* bestmove`; bestmove / ponder are the first / second move of the last reported
+   principal variation (`None` = the pv has one move only); without any reported pv: `bestmove 0000`.  Every oracle.
+   (This is the fixed defect D18.) ---- *)
+Theorem C16_bestmove_is_pv_head : forall T orc g st,
+  exists infos best ponder,
+    go_msgs T orc g st = infos ++ [OBestmove best ponder] /\ forallb is_info infos = true /\
+    match last_pv infos with
+    | Some pv => best = nth_error pv 0 /\ ponder = nth_error pv 1 /\ best <> None
+    | None => best = None /\ ponder = None
+    end.
+Proof. exact bestmove_is_pv_head_thm. Qed.
+Print Assumptions C16_bestmove_is_pv_head.
+
+(* ---- every reported principal variation is a non-empty LEGAL LINE from the searched position.
+   [line_legal T b l]: each move is generated (gen_pseudo) in the position reached so far and its `make` is valid.
+   Hypotheses: C03_family (make/unmake inverse on the boards of the search, as for C09/C07), and
+   [key_family T K]: K n zh b = "the main search may visit board b under table key zh with n plies of draft left" is
+   closed under the search's own key update, monotone in the draft, and has NO COLLISION (one key, one board);
+   K holds at the root for its Zobrist hash.  [C16_key_family_of_visited] below gives the intended instance. ---- *)
+Theorem C16_pv_legal : forall T good Q, C03_family T good Q -> forall K, key_family T K ->
+  forall orc g st D, (length (fst (go_full T orc g st)) <= D)%nat -> good (D + S Q)%nat (s_board st) ->
+  K D (zobrist_hash T (s_board st)) (s_board st) ->
+  forall i pv, In (OInfo i) (go_msgs T orc g st) -> i_pv i = Some pv ->
+  exists line, pv = map uci_of_move line /\ line <> [] /\ line_legal T (s_board st) line.
+Proof. exact pv_legal_thm. Qed.
+Print Assumptions C16_pv_legal.
+
+Theorem C16_key_family_of_visited : forall T (V : nat -> board -> Prop),
+  ZobristProofs.keys_rows_ok T = true -> ZobristProofs.gen_masks_ok T = true ->
+  (forall n b, V n b -> wf b = true /\ ZobristProofs.castle_wf b = true /\ ZobristProofs.ep_wf b = true) ->
+  (forall n b m b', V (S n) b -> In m (gen_pseudo T b) -> make b m = Some b' -> is_valid T b' = true -> V n b') ->
+  (forall n b, V (S n) b -> V n b) ->
+  (forall n1 n2 b1 b2, V n1 b1 -> V n2 b2 -> zobrist_hash T b1 = zobrist_hash T b2 -> b1 = b2) ->
+  key_family T (fun n zh b => zh = zobrist_hash T b /\ V n b).
+Proof. exact key_family_of_visited. Qed.
+Print Assumptions C16_key_family_of_visited.
+
+(* ---- the two renderers.  Model/UciTx.v prints the run-time measurements as placeholders (time `T`, nps `X`,
+   debug statistics `S`), so `UciTx.render_info i = ConsoleTx.render_info (to_console nps dbg i)` cannot hold
+   literally; both are the SAME function [render_info_with] of the three placeholder texts ... ---- *)
+Theorem C16_render_agrees : forall nps dbg i,
+  match i_pv i with Some l => forallb umove_ok l = true | None => True end ->
+  UciTx.render_info i = render_info_with (fun _ => lit "T") (lit "X") (lit "S") i /\
+  ConsoleTx.render_info (to_console nps dbg i) = render_info_with (fun ns => show_N (ns / 1000000)) (show_N nps) dbg i.
+Proof. intros nps dbg i H. split; [exact (uci_render_with i)|exact (console_render_with nps dbg i H)]. Qed.
+Print Assumptions C16_render_agrees.
+
+(* ... and on the fields that are values of the model the equation is exact *)
+Theorem C16_render_exact : forall nps dbg i,
+  i_time i = None -> i_nps i = false -> i_string i = false ->
+  match i_pv i with Some l => forallb umove_ok l = true | None => True end ->
+  ConsoleTx.render_info (to_console nps dbg i) = UciTx.render_info i.
+Proof. exact render_info_exact. Qed.
+Print Assumptions C16_render_exact.
+
+Theorem C16_render_bestmove_agrees : forall b p,
+  ConsoleOk.opt_ok umove_ok b = true -> ConsoleOk.opt_ok umove_ok p = true ->
+  ConsoleTx.render (ConsoleTx.BestMove (option_map to_mv b) (option_map to_mv p)) = Some (UciTx.render_bestmove b p).
+Proof. exact render_bestmove_agree. Qed.
+Print Assumptions C16_render_bestmove_agrees.
+
+(* ---- hashfull is a permill value while the table is within its capacity (C18), for every capacity ---- *)
+Theorem C16_hash_full_le_1000 : forall len cap, len <= cap -> hash_full len cap <= 1000.
+Proof. exact hash_full_bound. Qed.
+Print Assumptions C16_hash_full_le_1000.
+
+(* ---- the output of one go is a list of `info` messages followed by exactly one `bestmove`; every message is a
+   `UciTx` call that satisfies the side conditions of the renderer theorems ([msg_ok]), whatever the node rate and
+   the (single-line) debug text are; hence every line written is in the UCI output grammar.
+   Extra hypotheses: the table checks of the chess instance, the start position satisfies the clock-free part of
+   [good_chess] ([pos_ok]; implied by good_chess), the table was created with at most the printed capacity. ---- *)
+Theorem C16_one_go_output_shape : forall T good Q, C03_family T good Q -> forall K, key_family T K ->
+  tables_chess_ok T = true ->
+  forall orc g st D, (length (fst (go_full T orc g st)) <= D)%nat -> good (D + S Q)%nat (s_board st) ->
+  K D (zobrist_hash T (s_board st)) (s_board st) -> pos_ok T (s_board st) ->
+  N.of_nat (HashTable.cap tt_entry (s_tt st)) <= tt_capacity T ->
+  exists infos best ponder,
+    go_msgs T orc g st = infos ++ [OBestmove best ponder] /\ forallb is_info infos = true /\
+    forall m, In m (go_msgs T orc g st) -> forall nps dbg, UciOut.single_line dbg = true ->
+      exists tm line, to_tx nps dbg m = Some tm /\ ConsoleOk.msg_ok tm = true /\
+                      ConsoleTx.render tm = Some line /\ UciOut.engine_line line = true.
+Proof. exact one_go_output_shape_thm. Qed.
+Print Assumptions C16_one_go_output_shape.
+
+(* ---- non-vacuity: two concrete sessions on the regenerated tables, from the start position.
+   (a) `go depth 2`, nothing happens: two iterations.
+   (b) `go depth 3`, polling every 25 nodes, abort hook at node 75 (inside the second iteration): the first iteration
+       is kept, two periodic infos follow, the aborted second iteration reports depth 1 and the kept line again, and
+       the answer is the head of that line, without a ponder move because the line has one move. ---- *)
+Require Ink.Gen.Tables.
+Definition c16_go (d : N) : go_params :=
+  {| g_searchmoves := []; g_wtime := None; g_btime := None; g_winc := None; g_binc := None; g_depth := Some d; g_movetime := None |}.
+Definition c16_orc_a : oracle :=
+  {| abort_at := None; poll := 100000; inbox := fun _ => []; elapsed := fun k => N.of_nat k * 1000000 |}.
+Definition c16_orc_b : oracle :=
+  {| abort_at := Some (75, 1); poll := 25; inbox := fun _ => []; elapsed := fun k => N.of_nat k * 1500000 |}.
+Definition c16_lines (msgs : list omsg) : list (option str) :=
+  map (fun m => match to_tx 1234 [] m with Some tm => ConsoleTx.render tm | None => None end) msgs.
+
+Example C16_demo_session_a :
+  let msgs := go_msgs Ink.Gen.Tables.tables c16_orc_a (c16_go 2) (init_state Ink.Gen.Tables.tables) in
+  field_values i_depth msgs = [1; 2] /\ field_values i_nodes msgs = [21; 90] /\
+  field_values i_time msgs = [0; 2000000] /\ last_pv msgs = Some [(57, 42, 0); (1, 18, 0)] /\
+  map render msgs =
+    [Some (lit "info depth 1 time T nodes 21 pv b1c3 score cp 50 hashfull 0 nps X");
+     Some (lit "info depth 2 time T nodes 90 pv b1c3 b8c6 score cp 0 hashfull 0 nps X");
+     Some (lit "bestmove b1c3 ponder b8c6")] /\
+  c16_lines msgs =
+    [Some (lit "info depth 1 time 0 nodes 21 pv b1c3 score cp 50 hashfull 0 nps 1234");
+     Some (lit "info depth 2 time 2 nodes 90 pv b1c3 b8c6 score cp 0 hashfull 0 nps 1234");
+     Some (lit "bestmove b1c3 ponder b8c6")].
+Proof. vm_compute. repeat split. Qed.
+
+Example C16_demo_session_b :
+  let msgs := go_msgs Ink.Gen.Tables.tables c16_orc_b (c16_go 3) (init_state Ink.Gen.Tables.tables) in
+  field_values i_depth msgs = [1; 1] /\ field_values i_nodes msgs = [21; 25; 50; 79] /\
+  field_values i_time msgs = [0; 3000000; 6000000; 9000000] /\ last_pv msgs = Some [(57, 42, 0)] /\
+  c16_lines msgs =
+    [Some (lit "info depth 1 time 0 nodes 21 pv b1c3 score cp 50 hashfull 0 nps 1234");
+     Some (lit "info time 3 nodes 25 hashfull 0 nps 1234");
+     Some (lit "info time 6 nodes 50 hashfull 0 nps 1234");
+     Some (lit "info depth 1 time 9 nodes 79 pv b1c3 score cp 50 hashfull 0 nps 1234");
+     Some (lit "bestmove b1c3")].
+Proof. vm_compute. repeat split. Qed.
